@@ -29,7 +29,7 @@ import (
 )
 
 const (
-	minWaitScrapeTimes = 0
+	minWaitScrapeTimes = 3
 )
 
 type shardInfo struct {
